@@ -5,6 +5,7 @@ package main
 import (
 	"fmt"
 	"math"
+	"os"
 	"strings"
 )
 
@@ -28,6 +29,9 @@ var (
 	operatorPool = []string{"in", "endsWith", "startsWith", "matches", "contains", "lessThan", "lessThanOrEqual", "greaterThan", "greaterThanOrEqual", "before", "after", "semVerEqual", "semVerLessThan", "semVerGreaterThan"}
 	statusPool   = []string{"HEALTHY", "STALE", "STORE_ERROR", "NOT_CONFIGURED"}
 )
+
+// rawEnabled: whether context attributes are sometimes unparsed values (ldvalue.Raw).
+var rawEnabled = os.Getenv("VERIF_RAW") != "" // TODO flip once the model has raw values
 
 // Profile: generator weights (percentages) for one stream.
 type Profile struct {
@@ -133,6 +137,15 @@ func (g *gen) sctx(kind string) WSCtx {
 		v := g.value(0)
 		if v.K == 'z' {
 			continue
+		}
+		if rawEnabled && r.chance(1, 9) {
+			// an unparsed value (ldvalue.Raw): whole attribute, or one element of an array
+			if v.K == 'a' && len(v.A) > 0 && r.bool() {
+				i := r.intn(len(v.A))
+				v.A[i] = JV{K: 'r', A: []JV{v.A[i]}}
+			} else {
+				v = JV{K: 'r', A: []JV{v}}
+			}
 		}
 		c.Attrs = append(c.Attrs, WAttr{k, v})
 	}
